@@ -116,6 +116,12 @@ func chunk(dir string, idx int, vals [][]byte, fail func(kind string, v []byte, 
 	ctx := context.Background()
 	names := make([]string, len(vals))
 	vers := make([]api.SecretVersion, len(vals))
+	type histPut struct {
+		i    int
+		name string
+		ver  api.SecretVersion
+	}
+	var hist []histPut
 	eq := func(kind string, i int, got []byte, err error) {
 		evals++
 		if err != nil {
@@ -157,6 +163,20 @@ func chunk(dir string, idx int, vals [][]byte, fail func(kind string, v []byte, 
 		eq("db-getversion", i, val(sv), err)
 		sv, err = cl.GetIfChanged(ctx, names[i], ver+1)
 		eq("client-getifchanged", i, val(sv), err)
+		// the same value put onto a secret with a history: two other versions, the newer one deleted again
+		// (so the number last assigned names nothing); the version the put reports must hold the bytes
+		n2 := names[i] + "/after-delete"
+		cl.Put(ctx, n2, append([]byte("first-"), v...))
+		if v2, err := cl.Put(ctx, n2, append([]byte("second-"), v...)); err == nil {
+			cl.DeleteVersion(ctx, n2, v2)
+		}
+		if ver2, err := cl.Put(ctx, n2, v); err != nil {
+			fail("client-put-after-delete", v, err.Error())
+		} else {
+			sv, err = cl.GetVersion(ctx, n2, ver2)
+			eq("client-getversion-after-delete", i, val(sv), err)
+			hist = append(hist, histPut{i, n2, ver2})
+		}
 	}
 	// Store, cache, FileClient
 	cpath := filepath.Join(dir, "cache.json")
@@ -225,6 +245,10 @@ func chunk(dir string, idx int, vals [][]byte, fail func(kind string, v []byte, 
 			eq("after-restart-get", i, val(sv), err)
 			sv, err = d2.GetVersion(hx.Super(), names[i], vers[i])
 			eq("after-restart-getversion", i, val(sv), err)
+		}
+		for _, h := range hist {
+			sv, err := d2.GetVersion(hx.Super(), h.name, h.ver)
+			eq("after-restart-getversion-after-delete", h.i, val(sv), err)
 		}
 	}
 	return evals
@@ -310,7 +334,7 @@ func TestCheck(t *testing.T) {
 	vals := stringsOver([]byte{0x00, 0x0a, 0x20, 0x61, 0x80, 0xff, 0x22, 0x5c}, n)
 	vals = append(vals, boundary()...)
 	sec := rep.Add(&report.Section{Name: fmt.Sprintf("round-trip-all-strings-len%d", n), Engine: "enum", Exhaustive: true, Extra: map[string]int64{},
-		Rule: "every byte string over the 8-byte alphabet up to the length bound (plus the boundary family) is put through the real HTTP client/handler and read back by Client.Get/GetVersion/GetIfChanged, db.Get/GetVersion, a Store handle, the cache file, a Store started from the cache alone, a FileClient (non-empty values), and again after reopening the database; non-trivial = values that are not valid UTF-8 text or are empty or carry whitespace/quotes/backslashes"})
+		Rule: "every byte string over the 8-byte alphabet up to the length bound (plus the boundary family) is put through the real HTTP client/handler and read back by Client.Get/GetVersion/GetIfChanged, db.Get/GetVersion, a Store handle, the cache file, a Store started from the cache alone, a FileClient (non-empty values), and again after reopening the database; each value is also put onto a secret whose newest version was just deleted and read back under the version the put reports, live and after the restart; non-trivial = values that are not valid UTF-8 text or are empty or carry whitespace/quotes/backslashes"})
 	var mu sync.Mutex
 	fail := func(kind string, v []byte, msg string) {
 		mu.Lock()
